@@ -251,6 +251,63 @@ def rule_roman(ctx):
     return rr
 
 
+def _fold(ctx, mod, e, depth=0):
+    """Constant-fold integers and datetime arithmetic written at module level
+    (`(datetime.datetime.max - DATE_ZERO).days`); None if not a constant."""
+    if depth > 6:
+        return None
+    if isinstance(e, ast.Constant) and isinstance(e.value, (int, float)) and \
+            not isinstance(e.value, bool):
+        return e.value
+    if isinstance(e, ast.Name):
+        vals = mod.assigns.get(e.id) or []
+        if len(vals) == 1:
+            return _fold(ctx, mod, vals[0], depth + 1)
+        return None
+    if isinstance(e, ast.Attribute):
+        r = ctx.project.resolve_expr(mod, e)
+        if r and r[0] == 'ext':
+            return {'datetime.datetime.max': datetime.datetime.max,
+                    'datetime.datetime.min': datetime.datetime.min,
+                    'datetime.date.max': datetime.date.max,
+                    'datetime.date.min': datetime.date.min}.get(r[1])
+        base = _fold(ctx, mod, e.value, depth + 1)
+        if isinstance(base, datetime.timedelta) and e.attr == 'days':
+            return base.days
+        if isinstance(base, (datetime.date, datetime.datetime)) and \
+                e.attr in ('year', 'month', 'day'):
+            return getattr(base, e.attr)
+        return None
+    if isinstance(e, ast.Call) and not e.keywords:
+        r = ctx.project.resolve_expr(mod, e.func) if isinstance(
+            e.func, (ast.Name, ast.Attribute)) else None
+        args = [_fold(ctx, mod, a, depth + 1) for a in e.args]
+        if r and r[0] == 'ext' and all(isinstance(a, int) for a in args):
+            try:
+                if r[1] == 'datetime.datetime':
+                    return datetime.datetime(*args)
+                if r[1] == 'datetime.date':
+                    return datetime.date(*args)
+                if r[1] == 'datetime.timedelta':
+                    return datetime.timedelta(*args)
+            except (ValueError, TypeError):
+                return None
+        return None
+    if isinstance(e, ast.BinOp) and isinstance(e.op, (ast.Add, ast.Sub)):
+        a, b = _fold(ctx, mod, e.left, depth + 1), _fold(
+            ctx, mod, e.right, depth + 1)
+        if a is None or b is None:
+            return None
+        try:
+            if isinstance(a, datetime.datetime) and isinstance(
+                    b, datetime.date) and not isinstance(b, datetime.datetime):
+                b = datetime.datetime(b.year, b.month, b.day)
+            return a + b if isinstance(e.op, ast.Add) else a - b
+        except TypeError:
+            return None
+    return None
+
+
 def rule_serial(ctx):
     rr = RuleResult('C20', 'C20.serial', 'SIB/TAB',
                     'largest date serial and the 1900 leap pivot', floor=5)
@@ -285,9 +342,12 @@ def rule_serial(ctx):
                     continue
                 operands = [n.left] + list(n.comparators)
                 for i, opnd in enumerate(operands):
-                    if isinstance(opnd, ast.Constant) and isinstance(
-                            opnd.value, int) and abs(
-                            opnd.value - lim['max_serial']) <= 5:
+                    folded = _fold(ctx, mod, opnd) if isinstance(
+                        opnd, (ast.Constant, ast.Name)) else None
+                    if isinstance(folded, int) and not isinstance(
+                            folded, bool) and abs(
+                            folded - lim['max_serial']) <= 5:
+                        opnd = ast.copy_location(ast.Constant(folded), opnd)
                         n_lit += 1
                         rr.instances += 1
                         # operator linking this literal with its neighbour
